@@ -121,6 +121,7 @@ def load(cdir):
                 continue
             if s == '@end':
                 cur = []
+                var, insts = None, ['']
                 continue
             for kind, key, i in cur:
                 if cond is not None and i not in cond:
